@@ -116,13 +116,15 @@ PROPS = {
                  '(permutation, widest first, restore inverts order); slot <-> (N, M) <-> frequency helpers are mutually inverse; '
                  'compute_spectrum_slot_vs_bandwidth gives enough whole slots per channel. compute_n_m with two fully user-fixed (N, M) entries: '
                  'both used verbatim and disjoint, or the request is left unserved; through pth_assign_spectrum: accepted => both ranges were '
-                 'free and occupancy = old + both ranges, blocked => no label and no spectrum change.',
+                 'free and occupancy = old + both ranges, blocked => no label and no spectrum change; one fixed and one free entry: the '
+                 'fixed one verbatim or nothing served, the free one takes exactly what is left on slots that were free, inside the guard bands.',
         'level_note': 'structure bounds of the compute_n_m / pth_assign_spectrum contracts: one request with one (N, M) '
                       'entry over a two-OMS list (path over one or both); map sizes, extents and contents unbounded. '
                       'The history clause (occupancy = union of accepted ranges, pairwise disjoint) follows by induction '
                       'from the per-call contract (DESIGN 4, C14) and is not a separate machine-checked lemma. A user-fixed '
                       'N outside the map finds nothing available (proved; it used to raise ValueError: F45, fixed). Requests with several (N, M) entries, fixed, free '
-                      'or mixed (other than two fully fixed entries over one OMS, which are proved), are outside the contracts and checked by a bounded stand-in from the service document to the '
+                      'or mixed (other than two fully fixed entries, or one fixed and one free entry, over one OMS, which are proved - except that the '
+                      'free window avoids the fixed range, which pyvc leaves undecided), are outside the contracts and checked by a bounded stand-in from the service document to the '
                       'assignment (used as given, or refused / blocked; no exception, no planner that does not return); histories of services over '
                       'lines without amplifier (fused-only patches, passive lines) are a bounded stand-in; the upper guard band is one slot '
                       'short (known finding F43); order_slots / restore_order on requests of more than two entries: bounded stand-in '
